@@ -271,3 +271,47 @@ def dominated_by_edges(body, edges, block):
     if not edges:
         return False
     return block not in body.cfg.reachable_from([0], avoid_edges=edges)
+
+
+def bool_place_edges(body, place_pred):
+    """Edges of SwitchInt terminators that test a boolean loaded from a place satisfying place_pred
+    (after root tracing). Returns (true_edges, false_edges)."""
+    du = defuse(body)
+    te, fe = set(), set()
+    for bi in body.cfg.reach:
+        t = body.blocks[bi]["term"]
+        if t["k"] != "switch":
+            continue
+        p = op_place(t["discr"])
+        if p is None:
+            continue
+        neg = False
+        l = p["l"]
+        if not p.get("p"):
+            d = du.single_def(l)
+            if d and d[0] == "stmt" and d[3]["rv"]["k"] == "unop" and d[3]["rv"]["op"] == "Not":
+                neg = True
+                p = op_place(d[3]["rv"]["a"])
+                if p is None:
+                    continue
+        r = root_place(body, p)
+        if not place_pred(r):
+            continue
+        nv = len(t["values"])
+        for k, v in enumerate(t["values"]):
+            e = ("e", bi, k)
+            is_true = (v != 0) != neg
+            (te if is_true else fe).add(e)
+        # otherwise edge: the complement for a boolean
+        e = ("e", bi, nv)
+        if t["values"] == [0]:
+            (fe if neg else te).add(e)
+        elif t["values"] == [1]:
+            (te if neg else fe).add(e)
+    return te, fe
+
+
+def call_bool_edges(body, bi):
+    """(true_edges, false_edges) of switches testing the bool returned by the call in block bi."""
+    oc = success_edges(body, bi)
+    return oc.ok_edges, oc.err_edges
